@@ -29,7 +29,7 @@ ANCHORS = [
 ]
 VK = ["scalar", "flat", "flatlist", "colvec", "collist", "ragged", "bad_same_total", "bad_total", "bad_rows", "bad_onerow"]
 FLOOR_TAGS = ["vk:" + v for v in VK] + ["mask:scalar", "mask:flat", "r:int", "r:slice+1", "r:slice+k", "r:slice-", "r:list", "r:mask", "r:ell",
-                                        "recv:fresh", "recv:lazyrows", "recv:lazycols+2", "recv:lazycols-1", "recv:lazychain", "recv:deepcopy", "recv:pickle", "values:hostile-floats", "valdtype:other", "valdtype:exotic", "ellipsis-padded", "seq", "seq:50+", "vk:selfsel", "overlap",
+                                        "recv:fresh", "recv:lazyrows", "recv:lazycols+2", "recv:lazycols-1", "recv:lazychain", "recv:deepcopy", "recv:pickle", "values:hostile-floats", "valdtype:other", "valdtype:exotic", "ellipsis-padded", "seq", "seq:50+", "vk:selfsel", "overlap", "value-is-receiver",
                                         "c:none", "c:int+", "c:int-", "c:slice+1", "c:slice+k", "c:slice-", "sel-has-empty-row", "e-first", "e-last", "e-mid", "allempty", "norows"]
 FLOOR_MONITORS = ["c03:footprint", "c03:must-refuse", "c03:bystander", "c03:alias", "c03:parent-untouched"]
 FP_STRICT = True       # a floating-point event inside the library that the dense computation does not have is a violation (shard.FpMonitor)
@@ -269,8 +269,13 @@ def run(case):
         out = attempt(aug)
     elif vk == "selfsel":
         idx2 = model.make_index(*case["src"])
-        value = "ra[%s]" % short(idx2)
-        out = attempt(lambda: ra.__setitem__(idx, ra[idx2]))
+        if case["src"][0] is Ellipsis and not case["src"][2] and case.get("value_is_receiver"):
+            value = "ra"                                # the receiver object itself is the value (ra[:, ::-1] = ra)
+            tags.append("value-is-receiver")
+            out = attempt(lambda: ra.__setitem__(idx, ra))
+        else:
+            value = "ra[%s]" % short(idx2)
+            out = attempt(lambda: ra.__setitem__(idx, ra[idx2]))
     else:
         out = attempt(lambda: ra.__setitem__(idx, value))
     after = attempt(peek, ra)
@@ -475,8 +480,14 @@ def gen_selfsel(rng, tier):
              ((slice(None), slice(None), True), (slice(None, None, -1), slice(None, None, -1), True)),
              ((Ellipsis, None, False), (slice(None, None, -1), None, False))]
     tgt, src = rng.choice(forms)
+    isrecv = False
+    if rng.random() < 0.3:
+        # the whole receiver as the value of a non-identity target of the same shape
+        tgt, src, isrecv = rng.choice([(slice(None), slice(None, None, -1), True), (slice(None, None, -1), None, False), (list(range(n))[::-1], None, False), (slice(None, None, -1), slice(None, None, -1), True)]), (Ellipsis, None, False), True
     c = mk_case(lens, tgt[0], tgt[1], tgt[2], "selfsel", rng.choice(["int64", "float64", "int32"]), rng.choice(["fresh", "fresh", "fromnumpy", "ufunc", "pickle"]))
     c["src"] = list(src)
+    if isrecv:
+        c["value_is_receiver"] = True
     return c
 
 
